@@ -97,7 +97,7 @@ func TestC03(t *testing.T) {
 	rapid.Check(t, func(rt *rapid.T) {
 		ch := choose.Rapid{T: rt}
 		cfg := walkCfg{node: genNodeCfg(ch), steps: rapid.IntRange(10, 50).Draw(rt, "steps"),
-			weights: []int{0, 0, 0, 0, 1, 1, 1, 2, 4, 4, 4, 5, 7}}
+			weights: []int{0, 0, 0, 0, 1, 1, 1, 2, 2, 4, 4, 5, 5, 13, 7}}
 		if err := contentCase("C03", ch, cfg, rec); err != nil {
 			fatal(rt, "%v", err)
 		}
